@@ -52,11 +52,13 @@ pub open spec fn pop_seq_ok(parent: Seq<usize>, ch: Seq<VertexSet>, order: Seq<u
     &&& forall|k: int| 1 <= k < ps.len() ==> #[trigger] popped_before(ps, k, parent[ps[k] as int])
     // every child of a popped vertex is popped: the whole subtree of the root is visited
     &&& forall|k: int, m: int| 0 <= k < ps.len() && 0 <= m < ch[ps[k] as int]@.len() ==> ps.contains(#[trigger] ch[ps[k] as int]@[m])
+    // its child set has been sorted (siblings are numbered in decreasing vertex order)
+    &&& forall|k: int| 0 <= k < ps.len() ==> ascending(#[trigger] ch[ps[k] as int]@)
 }
 // statement slice of post_order: the counter and the stack loop.  DROPPED: the allocation `order = vec![nc + 1; n]`, the search for the
 // root (`position(|&x| x == NO_PARENT).unwrap()`: closure), `stack = [root]`, `post = 0..n` (for_each closure) - they are the slice's
 // preconditions - and, after the loop, `post.sort_by(|&x, &y| order[x].cmp(&order[y]))` (closure; std sort) and the truncation to nc.
-//@fn file=src/solver/chordal/supernode_tree.rs name=post_order as=post_order_loop rules=extset from="let mut i = nc;" to="while let Some(v) = stack.pop()" header="fn post_order_loop(order: &mut Vec<usize>, stack: &mut Vec<usize>, parent: &[usize], children: &mut [VertexSet], nc: usize)"
+//@fn file=src/solver/chordal/supernode_tree.rs name=post_order as=post_order_loop rules=extset from="let mut i =" to="while let Some(v) = stack.pop()" header="fn post_order_loop(order: &mut Vec<usize>, stack: &mut Vec<usize>, parent: &[usize], children: &mut [VertexSet], nc: usize)"
 //@contract
     requires
         old(order)@.len() == parent@.len(), old(children)@.len() == parent@.len(), parent@.len() < 0x8000_0000, nc < usize::MAX,
@@ -99,6 +101,7 @@ pub open spec fn pop_seq_ok(parent: Seq<usize>, ch: Seq<VertexSet>, order: Seq<u
             forall|x: int| 0 <= x < n && !ps.contains(x as usize) ==> #[trigger] order@[x] == nc + 1,
             forall|k: int, m: int| 0 <= k < ps.len() && 0 <= m < children@[ps[k] as int]@.len() ==>
                 ps.contains(#[trigger] children@[ps[k] as int]@[m]) || stack@.contains(children@[ps[k] as int]@[m]),
+            forall|k: int| 0 <= k < ps.len() ==> ascending(#[trigger] children@[ps[k] as int]@),
         ensures stack@.len() == 0,
         decreases n - ps.len(),
 //@body_start 1
@@ -133,7 +136,7 @@ pub open spec fn pop_seq_ok(parent: Seq<usize>, ch: Seq<VertexSet>, order: Seq<u
             lemma_active_count(ps1, parent@, n);
             lemma_nodup_bounded(ps1, n);
         }
-//@after "children[v].sort();"
+//@before "stack.extend_from_slice("
         let ghost cv = children@[v as int]@;
         proof {
             assert(same_members(cv, chb[v as int]@));
@@ -249,6 +252,10 @@ pub open spec fn pop_seq_ok(parent: Seq<usize>, ch: Seq<VertexSet>, order: Seq<u
                 } else { assert(cv.contains(cv[m])); }
             }
             if ps0.len() == 0 { assert(v == root); }
+            assert forall|k: int| 0 <= k < ps.len() implies ascending(#[trigger] children@[ps[k] as int]@) by {
+                if k < ps0.len() { assert(ps0[k] == ps[k]); assert(ps0.contains(ps0[k])); assert(children@[ps0[k] as int] == chb[ps0[k] as int]); }
+                else { assert(chb[v as int]@.no_duplicates()); }
+            }
             gs = stack@;
         }
 //@post
@@ -308,6 +315,8 @@ it
             forall|i: int| 0 <= i < it.index@ ==> (#[trigger] snode_parent@[i] < repr_vertex@.len() && repr_vertex@[snode_parent@[i] as int] == repr_parent@[i])
                 || (snode_parent@[i] == NO_PARENT && forall|k: int| 0 <= k < repr_vertex@.len() ==> repr_vertex@[k] != repr_parent@[i]),
 //@end
+
+// (rep_of: see find_supernodes below)
 
 // ---- find_supernodes: filling the supernodes from snode_index ----
 // the representative of vertex x (snode_index: negative = x is a representative, else the representative's vertex number)
@@ -609,6 +618,426 @@ it
     }
 //@end
 }
+
+// ---- pothen_sun: the pass over the vertices in post order that groups them into supernodes ----
+// snode_index: a negative entry marks a representative vertex (-1 - number of further members), a non-negative one names the
+// representative of the supernode the vertex belongs to
+pub open spec fn rep_ok(si: Seq<isize>, n: int, x: int) -> bool { si[x] < 0 || (si[x] < n && si[si[x] as int] <= -2) }
+pub open spec fn sn_inv(si: Seq<isize>, n: int) -> bool { forall|x: int| 0 <= x < n ==> #[trigger] rep_ok(si, n, x) }
+// post is a post order of the elimination tree: a permutation of the vertices (pos = its inverse) in which every vertex comes before
+// its parent; only root has no parent
+pub open spec fn is_post_order(parent: Seq<usize>, post: Seq<usize>, pos: Seq<int>, root: int) -> bool {
+    &&& post.len() == parent.len() && pos.len() == parent.len() && 0 <= root < parent.len() && parent[root] == NO_PARENT
+    &&& forall|x: int| 0 <= x < parent.len() ==> 0 <= #[trigger] pos[x] < parent.len() && post[pos[x]] == x
+    &&& forall|j: int| 0 <= j < parent.len() ==> #[trigger] post[j] < parent.len() && pos[post[j] as int] == j
+    &&& forall|x: int| 0 <= x < parent.len() && x != root ==> #[trigger] parent[x] < parent.len() && pos[x] < pos[parent[x] as int]
+}
+// the supernodes found so far, when the first idx vertices of the post order have been processed.  top[k] = the member of the supernode
+// of representative k that was added last: a supernode is the path k -> parent -> .. -> top[k] of the elimination tree
+// an unprocessed vertex is a supernode of its own, or has just been claimed by a child (then it is the top of that supernode)
+pub open spec fn unproc_ok(si: Seq<isize>, top: Seq<int>, n: int, x: int) -> bool {
+    (si[x] == -1 && top[x] == x) || (0 <= si[x] < n && top[si[x] as int] == x)
+}
+pub open spec fn top_ok(si: Seq<isize>, top: Seq<int>, n: int, k: int) -> bool { 0 <= top[k] < n && rep_of(si, top[k]) == k }
+// every member but the top has been processed and took its parent into the supernode
+pub open spec fn member_ok(parent: Seq<usize>, si: Seq<isize>, top: Seq<int>, pos: Seq<int>, idx: int, x: int) -> bool {
+    x != top[rep_of(si, x)] ==> pos[x] < idx && parent[x] != NO_PARENT && rep_of(si, parent[x] as int) == rep_of(si, x)
+}
+// a top that has been processed did not take its parent along: the supernode is closed
+pub open spec fn closed_ok(parent: Seq<usize>, si: Seq<isize>, top: Seq<int>, pos: Seq<int>, idx: int, k: int) -> bool {
+    pos[top[k]] < idx && parent[top[k]] != NO_PARENT ==> rep_of(si, parent[top[k]] as int) != k
+}
+pub open spec fn ps_struct(parent: Seq<usize>, si: Seq<isize>, top: Seq<int>, pos: Seq<int>, idx: int) -> bool {
+    let n = parent.len() as int;
+    &&& si.len() == n && top.len() == n && sn_inv(si, n)
+    &&& forall|x: int| 0 <= x < n && pos[x] >= idx ==> #[trigger] unproc_ok(si, top, n, x)
+    &&& forall|k: int| 0 <= k < n && si[k] < 0 ==> #[trigger] top_ok(si, top, n, k)
+    &&& forall|x: int| 0 <= x < n ==> #[trigger] member_ok(parent, si, top, pos, idx, x)
+    &&& forall|k: int| 0 <= k < n && si[k] < 0 ==> #[trigger] closed_ok(parent, si, top, pos, idx, k)
+}
+// C17: for every edge w -> parent[w] of the elimination tree, both ends processed, that leaves a supernode, snode_parent of that
+// supernode's representative is the representative of the supernode of parent[w]
+pub open spec fn edge_ok(parent: Seq<usize>, si: Seq<isize>, sp: Seq<usize>, pos: Seq<int>, idx: int, w: int) -> bool {
+    pos[w] < idx && parent[w] != NO_PARENT && pos[parent[w] as int] < idx && rep_of(si, w) != rep_of(si, parent[w] as int)
+        ==> sp[rep_of(si, w)] == rep_of(si, parent[w] as int)
+}
+// snode_parent is written only at representatives of closed supernodes whose top has a parent
+pub open spec fn written_ok(parent: Seq<usize>, si: Seq<isize>, sp: Seq<usize>, top: Seq<int>, pos: Seq<int>, idx: int, k: int) -> bool {
+    sp[k] != NO_PARENT ==> si[k] < 0 && pos[top[k]] < idx && parent[top[k]] != NO_PARENT
+}
+pub open spec fn ps_vals(parent: Seq<usize>, si: Seq<isize>, sp: Seq<usize>, top: Seq<int>, pos: Seq<int>, idx: int) -> bool {
+    let n = parent.len() as int;
+    &&& sp.len() == n
+    &&& forall|w: int| 0 <= w < n ==> #[trigger] edge_ok(parent, si, sp, pos, idx, w)
+    &&& forall|k: int| 0 <= k < n ==> #[trigger] written_ok(parent, si, sp, top, pos, idx, k)
+}
+pub proof fn lemma_rep_range(si: Seq<isize>, n: int, x: int)
+    requires sn_inv(si, n), 0 <= x < n, si.len() == n,
+    ensures 0 <= rep_of(si, x) < n, si[rep_of(si, x)] < 0,
+{ assert(rep_ok(si, n, x)); }
+
+// one vertex v = post[idx] processed.  kp = its representative, p = its parent.  claim: v took p into its supernode.
+// chv = children[v] at the time of the inner loop: the processed vertices whose parent is v (and v itself if it is the root)
+pub open spec fn ps_step_si(si0: Seq<isize>, si1: Seq<isize>, p: int, kp: int, claim: bool) -> bool {
+    if claim { si1 == si0.update(p, kp as isize).update(kp, (si0[kp] - 1) as isize) } else { si1 == si0 }
+}
+pub proof fn lemma_ps_step(parent: Seq<usize>, post: Seq<usize>, pos: Seq<int>, root: int, idx: int, v: int, kp: int, claim: bool,
+    si0: Seq<isize>, si1: Seq<isize>, top0: Seq<int>, top1: Seq<int>, sp0: Seq<usize>, spm: Seq<usize>, sp1: Seq<usize>, chv: Seq<usize>)
+    requires
+        is_post_order(parent, post, pos, root), 0 <= idx < parent.len(), v == post[idx], kp == rep_of(si0, v),
+        ps_struct(parent, si0, top0, pos, idx), ps_vals(parent, si0, sp0, top0, pos, idx),
+        parent.len() < isize::MAX, si0[kp] > isize::MIN + 1,
+        claim ==> v != root && si0[parent[v] as int] == -1,
+        ps_step_si(si0, si1, parent[v] as int, kp, claim),
+        top1 == (if claim { top0.update(kp, parent[v] as int) } else { top0 }),
+        // the vertex that does not take its parent along records itself (to be overwritten when the parent is processed)
+        spm == (if !claim && v != root { sp0.update(kp, kp as usize) } else { sp0 }),
+        sp1.len() == spm.len(),
+        // the loop over v's children writes kp at the representatives of the children that are not in v's supernode, nothing else
+        forall|m: int| 0 <= m < chv.len() ==> #[trigger] chv[m] < parent.len() && pos[chv[m] as int] <= idx && (chv[m] == v || (chv[m] != root && parent[chv[m] as int] == v)),
+        forall|w: int| 0 <= w < parent.len() && pos[w] < idx && w != root && parent[w] == v ==> #[trigger] chv.contains(w as usize),
+        forall|m: int| 0 <= m < chv.len() && rep_of(si1, chv[m] as int) != kp ==> sp1[rep_of(si1, #[trigger] chv[m] as int)] == kp,
+        forall|l: int| 0 <= l < parent.len() && #[trigger] sp1[l] != spm[l] ==> sp1[l] == kp && exists|m: int| 0 <= m < chv.len() && rep_of(si1, chv[m] as int) == l && l != kp,
+    ensures
+        ps_struct(parent, si1, top1, pos, idx + 1), ps_vals(parent, si1, sp1, top1, pos, idx + 1),
+{
+    let n = parent.len() as int;
+    let p = parent[v] as int;
+    assert(pos[v] == idx);
+    lemma_rep_range(si0, n, v);
+    assert(unproc_ok(si0, top0, n, v));
+    assert(top_ok(si0, top0, n, kp));
+    assert(top0[kp] == v);
+    if v != root { assert(parent[v] < n && pos[v] < pos[p]); assert(unproc_ok(si0, top0, n, p)); }
+    // representatives of processed vertices and of v do not change
+    assert forall|x: int| 0 <= x < n && (x != p || !claim) implies rep_of(si1, x) == rep_of(si0, x) by {
+        if claim { assert(rep_ok(si0, n, x)); }
+    }
+    if claim { assert(rep_of(si1, p) == kp); assert(rep_of(si0, p) == p); assert(p != kp) by { if p == kp { assert(si0[kp] == -1); assert(kp == v); } } }
+    assert(sn_inv(si1, n)) by {
+        assert forall|x: int| 0 <= x < n implies #[trigger] rep_ok(si1, n, x) by {
+            assert(rep_ok(si0, n, x));
+            if claim && si0[x] >= 0 { assert(rep_ok(si0, n, si0[x] as int)); }
+        }
+    }
+    assert forall|x: int| 0 <= x < n && pos[x] >= idx + 1 implies #[trigger] unproc_ok(si1, top1, n, x) by {
+        assert(unproc_ok(si0, top0, n, x));
+        if claim {
+            if x == p { }
+            else {
+                // x is not the top of kp's supernode (that was v), and x is not kp (kp is v or processed)
+                if si0[x] >= 0 && si0[x] == kp { assert(top0[kp] == x); }
+                if x == kp { assert(kp == v || si0[v] >= 0); if si0[v] >= 0 { assert(member_ok(parent, si0, top0, pos, idx, kp)); assert(rep_of(si0, kp) == kp); } }
+            }
+        }
+    }
+    assert forall|k: int| 0 <= k < n && si1[k] < 0 implies #[trigger] top_ok(si1, top1, n, k) by {
+        if claim { assert(k != p); if k != kp { assert(si0[k] < 0); assert(top_ok(si0, top0, n, k)); assert(top0[k] != p) by { if top0[k] == p { assert(rep_of(si0, p) == k); } } } }
+        else { assert(top_ok(si0, top0, n, k)); }
+    }
+    assert forall|x: int| 0 <= x < n implies #[trigger] member_ok(parent, si1, top1, pos, idx + 1, x) by {
+        assert(member_ok(parent, si0, top0, pos, idx, x));
+        lemma_rep_range(si0, n, x);
+        if claim {
+            if x == p { }
+            else if x == v { }
+            else {
+                let k = rep_of(si0, x);
+                if k == kp { assert(x != top0[kp]); assert(parent[x] != p) by { if parent[x] == p { assert(rep_of(si0, p) == kp); } } }
+                else if x != top0[k] { assert(parent[x] != p) by { if parent[x] == p { assert(rep_of(si0, p) == k); assert(k == p); assert(rep_ok(si0, n, x)); } } }
+                else { assert(top1[k] == top0[k]); }
+            }
+        }
+    }
+    assert forall|k: int| 0 <= k < n && si1[k] < 0 implies #[trigger] closed_ok(parent, si1, top1, pos, idx + 1, k) by {
+        if claim {
+            if k == kp { }
+            else {
+                assert(k != p); assert(si0[k] < 0);
+                assert(closed_ok(parent, si0, top0, pos, idx, k)); assert(top_ok(si0, top0, n, k));
+                let t = top0[k];
+                assert(t != v) by { if t == v { assert(rep_of(si0, v) == k); } }
+                if pos[t] < idx + 1 && parent[t] != NO_PARENT && parent[t] == p { }
+            }
+        } else {
+            assert(closed_ok(parent, si0, top0, pos, idx, k)); assert(top_ok(si0, top0, n, k));
+            if k == kp && v != root {
+                // p is unprocessed: a supernode of its own, or claimed by another child whose supernode is not kp
+                if rep_of(si0, p) == kp { if si0[p] == -1 { assert(p == kp); assert(member_ok(parent, si0, top0, pos, idx, p)); } else { assert(top0[kp] == p); } }
+            } else if top0[k] == v { assert(rep_of(si0, v) == k); }
+        }
+    }
+    // ---- values ----
+    // a child of v that is not in v's supernode is the top of its own
+    assert forall|m: int| 0 <= m < chv.len() && rep_of(si1, chv[m] as int) != kp implies top1[rep_of(si1, #[trigger] chv[m] as int)] == chv[m] && chv[m] != v && parent[chv[m] as int] == v && pos[chv[m] as int] < idx by {
+        let w = chv[m] as int;
+        assert(w != v);
+        assert(member_ok(parent, si1, top1, pos, idx + 1, w));
+        lemma_rep_range(si1, n, w);
+    }
+    assert forall|w: int| 0 <= w < n implies #[trigger] edge_ok(parent, si1, sp1, pos, idx + 1, w) by {
+        if pos[w] < idx + 1 && parent[w] != NO_PARENT && pos[parent[w] as int] < idx + 1 && rep_of(si1, w) != rep_of(si1, parent[w] as int) {
+            let q = parent[w] as int;
+            assert(w != root);
+            assert(parent[w] < n && pos[w] < pos[q]);
+            assert(pos[w] < idx);
+            lemma_rep_range(si1, n, w); lemma_rep_range(si1, n, q);
+            let l = rep_of(si1, w);
+            if q == v {
+                assert(chv.contains(w as usize));
+                let m = choose|m: int| 0 <= m < chv.len() && chv[m] == w as usize;
+                assert(sp1[rep_of(si1, chv[m] as int)] == kp);
+            } else {
+                assert(pos[q] < idx);
+                assert(edge_ok(parent, si0, sp0, pos, idx, w));
+                assert(sp0[l] == rep_of(si0, q));
+                // w is the top of its supernode (its parent lies outside)
+                assert(member_ok(parent, si1, top1, pos, idx + 1, w));
+                assert(top1[l] == w);
+                if spm[l] != sp0[l] { assert(l == kp); assert(top1[kp] == v || top1[kp] == p); }
+                if sp1[l] != spm[l] {
+                    let m = choose|m: int| 0 <= m < chv.len() && rep_of(si1, chv[m] as int) == l && l != kp;
+                    assert(top1[rep_of(si1, chv[m] as int)] == chv[m]);
+                }
+            }
+        }
+    }
+    assert forall|k: int| 0 <= k < n implies #[trigger] written_ok(parent, si1, sp1, top1, pos, idx + 1, k) by {
+        if sp1[k] != NO_PARENT {
+            assert(written_ok(parent, si0, sp0, top0, pos, idx, k));
+            if sp1[k] != spm[k] {
+                let m = choose|m: int| 0 <= m < chv.len() && rep_of(si1, chv[m] as int) == k && k != kp;
+                assert(top1[rep_of(si1, chv[m] as int)] == chv[m]);
+                lemma_rep_range(si1, n, chv[m] as int);
+            } else if spm[k] != sp0[k] {
+                assert(k == kp && !claim && v != root);
+            } else {
+                // written before: its top was processed before, so k is neither kp (top v) nor p (top p)
+                assert(si0[k] < 0 && pos[top0[k]] < idx);
+                assert(k != kp);
+                if claim { assert(k != p) by { if k == p { assert(top0[p] == p); } } }
+            }
+        }
+    }
+}
+
+pub proof fn lemma_ps_init(parent: Seq<usize>, post: Seq<usize>, pos: Seq<int>, root: int, si: Seq<isize>, sp: Seq<usize>, top: Seq<int>)
+    requires
+        is_post_order(parent, post, pos, root), si.len() == parent.len(), sp.len() == parent.len(), top.len() == parent.len(),
+        forall|x: int| 0 <= x < parent.len() ==> #[trigger] si[x] == -1, forall|x: int| 0 <= x < parent.len() ==> #[trigger] sp[x] == NO_PARENT,
+        forall|x: int| 0 <= x < parent.len() ==> #[trigger] top[x] == x,
+    ensures ps_struct(parent, si, top, pos, 0), ps_vals(parent, si, sp, top, pos, 0),
+{
+    let n = parent.len() as int;
+    assert forall|x: int| 0 <= x < n implies #[trigger] rep_ok(si, n, x) by { assert(si[x] == -1); }
+    assert forall|x: int| 0 <= x < n && pos[x] >= 0 implies #[trigger] unproc_ok(si, top, n, x) by { assert(si[x] == -1 && top[x] == x); }
+    assert forall|k: int| 0 <= k < n && si[k] < 0 implies #[trigger] top_ok(si, top, n, k) by { assert(top[k] == k); }
+    assert forall|x: int| 0 <= x < n implies #[trigger] member_ok(parent, si, top, pos, 0, x) by { assert(si[x] == -1); assert(top[x] == x); }
+    assert forall|k: int| 0 <= k < n && si[k] < 0 implies #[trigger] closed_ok(parent, si, top, pos, 0, k) by { assert(top[k] == k); }
+    assert forall|w: int| 0 <= w < n implies #[trigger] edge_ok(parent, si, sp, pos, 0, w) by { }
+    assert forall|k: int| 0 <= k < n implies #[trigger] written_ok(parent, si, sp, top, pos, 0, k) by { assert(sp[k] == NO_PARENT); }
+}
+// C17 (what the vertex loop of pothen_sun leaves in snode_parent, all vertices processed): the supernode of representative k is the path
+// k -> .. -> top[k] of the elimination tree, and snode_parent[k] is the representative of the supernode that contains the parent of
+// top[k] - a different supernode - or NO_PARENT if top[k] is the root
+pub open spec fn snode_parent_ok(parent: Seq<usize>, si: Seq<isize>, sp: Seq<usize>, top: Seq<int>, k: int) -> bool {
+    &&& 0 <= top[k] < parent.len() && rep_of(si, top[k]) == k
+    &&& parent[top[k]] == NO_PARENT ==> sp[k] == NO_PARENT
+    &&& parent[top[k]] != NO_PARENT ==> sp[k] == rep_of(si, parent[top[k]] as int) && sp[k] != k && sp[k] < parent.len() && si[sp[k] as int] < 0
+}
+pub open spec fn on_path(parent: Seq<usize>, si: Seq<isize>, top: Seq<int>, x: int) -> bool {
+    x != top[rep_of(si, x)] ==> parent[x] != NO_PARENT && rep_of(si, parent[x] as int) == rep_of(si, x)
+}
+pub open spec fn snode_tree_ok(parent: Seq<usize>, si: Seq<isize>, sp: Seq<usize>, top: Seq<int>) -> bool {
+    &&& top.len() == parent.len()
+    &&& forall|k: int| 0 <= k < parent.len() && si[k] < 0 ==> #[trigger] snode_parent_ok(parent, si, sp, top, k)
+    &&& forall|x: int| 0 <= x < parent.len() ==> #[trigger] on_path(parent, si, top, x)
+}
+pub proof fn lemma_ps_final(parent: Seq<usize>, post: Seq<usize>, pos: Seq<int>, root: int, si: Seq<isize>, sp: Seq<usize>, top: Seq<int>)
+    requires is_post_order(parent, post, pos, root), ps_struct(parent, si, top, pos, parent.len() as int), ps_vals(parent, si, sp, top, pos, parent.len() as int),
+    ensures
+        forall|k: int| 0 <= k < parent.len() && si[k] < 0 ==> #[trigger] snode_parent_ok(parent, si, sp, top, k),
+        forall|x: int| 0 <= x < parent.len() ==> #[trigger] on_path(parent, si, top, x),
+        // a vertex that is nobody's representative carries no parent entry
+        forall|x: int| 0 <= x < parent.len() && si[x] >= 0 ==> #[trigger] sp[x] == NO_PARENT,
+{
+    let n = parent.len() as int;
+    assert forall|k: int| 0 <= k < n && si[k] < 0 implies #[trigger] snode_parent_ok(parent, si, sp, top, k) by {
+        assert(top_ok(si, top, n, k)); assert(closed_ok(parent, si, top, pos, n, k)); assert(written_ok(parent, si, sp, top, pos, n, k));
+        let t = top[k];
+        if parent[t] != NO_PARENT {
+            assert(t != root);
+            assert(parent[t] < n);
+            assert(edge_ok(parent, si, sp, pos, n, t));
+            lemma_rep_range(si, n, parent[t] as int);
+        }
+    }
+    assert forall|x: int| 0 <= x < n implies #[trigger] on_path(parent, si, top, x) by { assert(member_ok(parent, si, top, pos, n, x)); }
+    assert forall|x: int| 0 <= x < n && si[x] >= 0 implies #[trigger] sp[x] == NO_PARENT by { assert(written_ok(parent, si, sp, top, pos, n, x)); }
+}
+// the child sets while the loop runs: a member of children[p] is a processed vertex whose parent is p (the root is listed as its own
+// child: `children[root_index].insert(v)`), and every processed vertex but the root is listed at its parent
+pub open spec fn kid_ok(parent: Seq<usize>, pos: Seq<int>, idx: int, root: int, p: int, w: usize) -> bool {
+    w < parent.len() && pos[w as int] < idx && (w != root ==> parent[w as int] == p) && (w == root ==> p == root)
+}
+pub open spec fn listed(parent: Seq<usize>, ch: Seq<VertexSet>, w: int) -> bool { ch[parent[w] as int]@.contains(w as usize) }
+pub open spec fn kids(parent: Seq<usize>, ch: Seq<VertexSet>, pos: Seq<int>, idx: int, root: int) -> bool {
+    &&& forall|p: int, m: int| 0 <= p < ch.len() && 0 <= m < ch[p]@.len() ==> kid_ok(parent, pos, idx, root, p, #[trigger] ch[p]@[m])
+    &&& forall|w: int| 0 <= w < parent.len() && pos[w] < idx && w != root ==> #[trigger] listed(parent, ch, w)
+}
+// statement slice of pothen_sun: the loop `for &v in post` (the slice of unit chordal_tree, with a stronger contract).  DROPPED: the
+// allocations before it (snode_index = [-1; n], snode_parent = [NO_PARENT; n], n empty child sets: preconditions), the search for the
+// root (`position(..).unwrap()`: closure) and everything after the loop (see pothen_sun_renumber).
+//@fn file=src/solver/chordal/supernode_tree.rs name=pothen_sun as=pothen_sun_loop rules=R5,setiter:v_children from="for &v in post" to="for &v in post" header="fn pothen_sun_loop(parent: &[usize], post: &[usize], degree: &[usize], snode_index: &mut Vec<isize>, snode_parent: &mut Vec<usize>, children: &mut Vec<VertexSet>, root_index: usize)"
+//@contract
+    requires
+        parent@.len() == degree@.len(), old(snode_index)@.len() == parent@.len(), old(snode_parent)@.len() == parent@.len(), old(children)@.len() == parent@.len(),
+        parent@.len() < isize::MAX,
+        // post is a post order of the elimination tree whose only root is root_index (post_order; parent_from_L: only the last vertex is a root)
+        exists|pos: Seq<int>| is_post_order(parent@, post@, pos, root_index as int),
+        // `degree[v] - 1` underflows for a non-root vertex of higher degree 0 (excluded by connect_graph, see unit chordal_tree)
+        forall|v: int| 0 <= v < parent@.len() && v != root_index ==> #[trigger] degree@[v] >= 1,
+        forall|x: int| 0 <= x < parent@.len() ==> #[trigger] old(snode_index)@[x] == -1,
+        forall|x: int| 0 <= x < parent@.len() ==> #[trigger] old(snode_parent)@[x] == NO_PARENT,
+        forall|p: int| 0 <= p < parent@.len() ==> (#[trigger] old(children)@[p])@ == Seq::<usize>::empty(),
+    ensures
+        final(snode_index)@.len() == parent@.len(), final(snode_parent)@.len() == parent@.len(), final(children)@.len() == parent@.len(),
+        // C17 (supernodes partition the vertices): every vertex is a representative or points at one that has further members
+        sn_inv(final(snode_index)@, parent@.len() as int),
+        // C17 (supernodal elimination tree): each supernode is a path of the elimination tree; snode_parent of its representative is the
+        // representative of the supernode holding the parent of the path's top vertex (NO_PARENT for the supernode of the root)
+        exists|top: Seq<int>| #[trigger] snode_tree_ok(parent@, final(snode_index)@, final(snode_parent)@, top),
+        forall|x: int| 0 <= x < parent@.len() && final(snode_index)@[x] >= 0 ==> #[trigger] final(snode_parent)@[x] == NO_PARENT,
+//@pre
+    let ghost n = parent@.len() as int;
+    let ghost pos = choose|pos: Seq<int>| is_post_order(parent@, post@, pos, root_index as int);
+    let ghost root = root_index as int;
+    let ghost top: Seq<int> = Seq::new(parent@.len(), |i: int| i);
+    proof {
+        lemma_ps_init(parent@, post@, pos, root, snode_index@, snode_parent@, top);
+        assert(kids(parent@, children@, pos, 0, root));
+    }
+//@iter 1
+it1
+//@loop 1
+        invariant
+            n == parent@.len(), parent@.len() == degree@.len(), snode_index@.len() == n, snode_parent@.len() == n, children@.len() == n,
+            n < isize::MAX, root == root_index, is_post_order(parent@, post@, pos, root),
+            it1.seq().len() == post@.len(), forall|i: int| 0 <= i < post@.len() ==> *(#[trigger] it1.seq()[i]) == post@[i],
+            forall|v: int| 0 <= v < n && v != root ==> #[trigger] degree@[v] >= 1,
+            ps_struct(parent@, snode_index@, top, pos, it1.index@ as int), ps_vals(parent@, snode_index@, snode_parent@, top, pos, it1.index@ as int),
+            kids(parent@, children@, pos, it1.index@ as int, root),
+            forall|x: int| 0 <= x < n ==> #[trigger] snode_index@[x] >= -1 - it1.index@,
+//@body_start 1
+        let ghost gidx = it1.index@ as int;
+        let ghost gv = post@[gidx] as int;
+        let ghost si0 = snode_index@;
+        let ghost sp0 = snode_parent@;
+        let ghost ch0 = children@;
+        let ghost top0 = top;
+        let ghost kp = rep_of(si0, gv);
+        let ghost gp = parent@[gv] as int;
+        proof {
+            assert(*v_r == post@[gidx]);
+            assert(post@[gidx] < n && pos[post@[gidx] as int] == gidx);
+            assert(rep_ok(si0, n, gv));
+            lemma_rep_range(si0, n, gv);
+            if gv != root { assert(parent@[gv] < n && pos[gv] < pos[gp]); assert(rep_ok(si0, n, gp)); }
+            else { assert(parent@[root] == NO_PARENT); }
+            assert(parent@[gv] == NO_PARENT <==> gv == root);
+            assert(si0[kp] >= -1 - gidx);
+        }
+//@before "if parent[v] != NO_PARENT"
+        proof {
+            // v is now listed at its parent (the root at itself); nothing else changed in the child sets
+            let tgt = if gv == root { root } else { gp };
+            assert(children@[tgt]@ == (if ch0[tgt]@.contains(gv as usize) { ch0[tgt]@ } else { ch0[tgt]@.push(gv as usize) }));
+            assert forall|p: int, m: int| 0 <= p < children@.len() && 0 <= m < children@[p]@.len() implies kid_ok(parent@, pos, gidx + 1, root, p, #[trigger] children@[p]@[m]) by {
+                if p != tgt { assert(children@[p] == ch0[p]); assert(kid_ok(parent@, pos, gidx, root, p, ch0[p]@[m])); }
+                else if m < ch0[tgt]@.len() { assert(kid_ok(parent@, pos, gidx, root, p, ch0[p]@[m])); }
+            }
+            assert forall|w: int| 0 <= w < n && pos[w] < gidx + 1 && w != root implies #[trigger] listed(parent@, children@, w) by {
+                if w == gv {
+                    if ch0[tgt]@.contains(gv as usize) { } else { assert(children@[tgt]@[ch0[tgt]@.len() as int] == gv as usize); }
+                } else {
+                    assert(pos[w] < gidx) by { if pos[w] == gidx { assert(post@[pos[w]] == w); } }
+                    assert(listed(parent@, ch0, w));
+                    let q = parent@[w] as int;
+                    if q == tgt { let j = choose|j: int| 0 <= j < ch0[tgt]@.len() && ch0[tgt]@[j] == w as usize; assert(children@[tgt]@[j] == w as usize); }
+                    else { assert(children@[q] == ch0[q]); }
+                }
+            }
+            assert(kids(parent@, children@, pos, gidx + 1, root));
+        }
+//@before "let k: isize"
+        let ghost claim = gv != root && degree@[gv] - 1 == degree@[gp] && si0[gp] == -1;
+        let ghost si1 = snode_index@;
+        let ghost spm = snode_parent@;
+        proof {
+            if claim {
+                assert(gp != kp) by { if gp == kp { assert(rep_ok(si0, n, gv)); } }
+                top = top0.update(kp, gp);
+            }
+            assert(ps_step_si(si0, si1, gp, kp, claim));
+            assert(spm == (if !claim && gv != root { sp0.update(kp, kp as usize) } else { sp0 }));
+            assert forall|x: int| 0 <= x < n implies #[trigger] snode_index@[x] >= -1 - (gidx + 1) by { assert(si0[x] >= -1 - gidx); }
+            assert(rep_of(si1, gv) == kp);
+            assert(sn_inv(si1, n)) by {
+                assert forall|x: int| 0 <= x < n implies #[trigger] rep_ok(si1, n, x) by {
+                    assert(rep_ok(si0, n, x));
+                    if si0[x] >= 0 { assert(rep_ok(si0, n, si0[x] as int)); }
+                }
+            }
+            assert forall|x: int| 0 <= x < n implies 0 <= #[trigger] rep_of(si1, x) < n by { lemma_rep_range(si1, n, x); }
+        }
+//@after "let k: isize"
+        let ghost chv = children@[gv]@;
+        proof {
+            assert(k == kp);
+            assert forall|m: int| 0 <= m < chv.len() implies #[trigger] chv[m] < n by { assert(kid_ok(parent@, pos, gidx + 1, root, gv, children@[gv]@[m])); }
+        }
+//@iter 2
+it2
+//@loop 2
+                invariant
+                    snode_index@ == si1, snode_index@.len() == n, snode_parent@.len() == n, spm.len() == n, n < isize::MAX, 0 <= k < n, k == kp, chv == v_children@,
+                    it2.seq().len() == chv.len(), forall|i: int| 0 <= i < chv.len() ==> *(#[trigger] it2.seq()[i]) == chv[i],
+                    forall|m: int| 0 <= m < chv.len() ==> #[trigger] chv[m] < n,
+                    forall|x: int| 0 <= x < n ==> 0 <= #[trigger] rep_of(si1, x) < n,
+                    forall|m: int| 0 <= m < it2.index@ && rep_of(si1, chv[m] as int) != kp ==> snode_parent@[rep_of(si1, #[trigger] chv[m] as int)] == kp,
+                    forall|l: int| 0 <= l < n && #[trigger] snode_parent@[l] != spm[l] ==> snode_parent@[l] == kp && exists|m: int| 0 <= m < it2.index@ && rep_of(si1, chv[m] as int) == l && l != kp,
+//@body_start 2
+                let ghost gm = it2.index@ as int;
+                let ghost spb = snode_parent@;
+                proof { assert(*w_r == chv[gm]); assert(chv[gm] < n); assert(0 <= rep_of(si1, chv[gm] as int) < n); }
+//@body_end 2
+                proof {
+                    assert(l == rep_of(si1, chv[gm] as int));
+                    assert forall|m: int| 0 <= m < gm + 1 && rep_of(si1, chv[m] as int) != kp implies snode_parent@[rep_of(si1, #[trigger] chv[m] as int)] == kp by {
+                        if m < gm { assert(spb[rep_of(si1, chv[m] as int)] == kp); }
+                    }
+                    assert forall|q: int| 0 <= q < n && #[trigger] snode_parent@[q] != spm[q] implies snode_parent@[q] == kp && exists|m: int| 0 <= m < gm + 1 && rep_of(si1, chv[m] as int) == q && q != kp by {
+                        if q == l && l != kp { assert(0 <= gm < gm + 1 && rep_of(si1, chv[gm] as int) == q && q != kp); }
+                        else {
+                            assert(snode_parent@[q] == spb[q]);
+                            let m = choose|m: int| 0 <= m < gm && rep_of(si1, chv[m] as int) == q && q != kp;
+                            assert(0 <= m < gm + 1 && rep_of(si1, chv[m] as int) == q && q != kp);
+                        }
+                    }
+                }
+//@body_end 1
+        proof {
+            assert forall|m: int| 0 <= m < chv.len() implies #[trigger] chv[m] < parent@.len() && pos[chv[m] as int] <= gidx && (chv[m] == gv || (chv[m] != root && parent@[chv[m] as int] == gv)) by {
+                assert(kid_ok(parent@, pos, gidx + 1, root, gv, children@[gv]@[m]));
+            }
+            assert forall|w: int| 0 <= w < parent@.len() && pos[w] < gidx && w != root && parent@[w] == gv implies #[trigger] chv.contains(w as usize) by {
+                assert(listed(parent@, children@, w));
+            }
+            lemma_ps_step(parent@, post@, pos, root, gidx, gv, kp, claim, si0, si1, top0, top, sp0, spm, snode_parent@, chv);
+        }
+//@post
+    proof { lemma_ps_final(parent@, post@, pos, root, snode_index@, snode_parent@, top); assert(snode_tree_ok(parent@, snode_index@, snode_parent@, top)); }
+//@end
 
 } // verus!
 fn main() {}
